@@ -322,7 +322,7 @@ fn main() {
              Non-trivial = at least two cells touched; distinct = distinct (colour type, flags, operation trace).",
         );
         run.assume("get_pixel is probed only for points of the 64x64 display (its behaviour outside is undocumented)");
-        let n = run.tier(40_000u64, 800_000u64);
+        let n = run.tier(40_000u64, 5_000_000u64);
         run.generate("histories-binary", n, false, 0.25, |ctx, _i, rng| history::<BinaryColor>(ctx, rng, &[BinaryColor::On, BinaryColor::Off]));
         run.generate("histories-gray4", n, false, 0.25, |ctx, _i, rng| {
             let pal: Vec<Gray4> = (0..16).map(Gray4::new).collect();
@@ -331,7 +331,7 @@ fn main() {
         run.generate("histories-rgb565", n, false, 0.25, |ctx, _i, rng| {
             history::<Rgb565>(ctx, rng, &[Rgb565::BLACK, Rgb565::RED, Rgb565::GREEN, Rgb565::BLUE, Rgb565::YELLOW, Rgb565::MAGENTA, Rgb565::CYAN, Rgb565::WHITE])
         });
-        let np = run.tier(6_000u64, 120_000u64);
+        let np = run.tier(6_000u64, 1_000_000u64);
         run.generate("patterns", np, false, 0.3, |ctx, idx, rng| match idx % 6 {
             0 => pattern_roundtrip::<BinaryColor>(ctx, rng, &['.', '#']),
             1 => pattern_roundtrip::<Gray2>(ctx, rng, &['0', '1', '2', '3']),
